@@ -27,8 +27,8 @@ BOUNDS = {
 STUBS = ["scipy.stats.multivariate_normal.rvs: arbitrary reals Z (one variable per entry) for a given (seed, n, p), with "
          "scipy's squeeze of the output shape; the same arguments give the same Z (the seed contract); scipy's real "
          "determinism is confirmed concretely", "np.sqrt: fresh r >= 0 with r*r == variance"]
-ASSUMPTIONS = ["valid changepoints: 0 <= c1 < ... < ck <= n-1; valid anomalies: 0 <= start < end <= n, pairwise disjoint and "
-               "sorted; positions < 0 or > n must raise ValueError; other inconsistent inputs (unsorted, overlapping) are not "
+ASSUMPTIONS = ["valid changepoints: 0 <= c1 < ... < ck <= n-1; valid anomalies: 0 <= start < end <= n, pairwise disjoint, "
+               "listed in any order; positions < 0 or > n must raise ValueError; other inconsistent inputs (unsorted changepoints, overlapping anomalies) are not "
                "constrained by the property and any outcome is accepted"]
 OUTSIDE = ["the distribution of the numbers (statistics, not semantics)", "sizes beyond the bounds"]
 
@@ -151,25 +151,28 @@ def make_changing(n, p, k, percol=False):
 def make_anomalous(n, p, k):
     ss = [z3.Int(f"s{i}") for i in range(k)]
     es = [z3.Int(f"e{i}") for i in range(k)]
-    mus = [z3.Real(f"mu_{s}") for s in range(k)]
-    vs = [z3.Real(f"var_{s}") for s in range(k)]
-    base = [z3.And(c >= -1, c <= n + 1) for c in ss + es] + [v >= 0 for v in vs]
+    # one mean / variance per anomaly and per column (every anomaly keeps the parameters it was *listed* with,
+    # in whatever order the disjoint anomalies are listed: seed C18-c)
+    mus = [[z3.Real(f"mu_{s}_{j}") for j in range(p)] for s in range(k)]
+    vs = [[z3.Real(f"var_{s}_{j}") for j in range(p)] for s in range(k)]
+    base = [z3.And(c >= -1, c <= n + 1) for c in ss + es] + [v >= 0 for row in vs for v in row]
     info = dict(gen="anomalous", n=n, p=p, k=k)
     seed = 0
 
     def run(eng, acc):
         with stubbed() as gen:
             if p > 1:
-                means = [np.array([SymReal(m)] * p, dtype=object) for m in mus]
-                variances = [np.array([SymReal(v)] * p, dtype=object) for v in vs]
+                means = [np.array([SymReal(x) for x in m], dtype=object) for m in mus]
+                variances = [np.array([SymReal(x) for x in v], dtype=object) for v in vs]
             else:
-                means = [SymReal(m) for m in mus]
-                variances = [SymReal(v) for v in vs]
+                means = [SymReal(m[0]) for m in mus]
+                variances = [SymReal(v[0]) for v in vs]
             anomalies = [(SymInt(a), SymInt(b)) for a, b in zip(ss, es)]
             args = dict(n=n, anomalies=anomalies if k != 1 else anomalies[0], means=means, variances=variances, random_state=seed)
             outside = z3.Or([z3.Or(a < 0, b > n) for a, b in zip(ss, es)])
             empty = z3.Or([b <= a for a, b in zip(ss, es)])
-            valid = z3.And([z3.And(a >= 0, a < b, b <= n) for a, b in zip(ss, es)] + [es[i] <= ss[i + 1] for i in range(k - 1)])
+            valid = z3.And([z3.And(a >= 0, a < b, b <= n) for a, b in zip(ss, es)]
+                           + [z3.Or(es[i] <= ss[j], es[j] <= ss[i]) for i in range(k) for j in range(i + 1, k)])   # disjoint, any order
             RvsStub.received = []
             try:
                 df = gen.generate_anomalous_data(**args)
@@ -195,12 +198,42 @@ def make_anomalous(n, p, k):
                 seg = next((s for s, (a, b) in enumerate(aa) if a <= i < b), None)
                 for j in range(p):
                     z = zvar(seed, n, p, i, j)
-                    want = z if seg is None else mus[seg] + sym_sqrt(SymReal(vs[seg])).t * z
+                    want = z if seg is None else mus[seg][j] + sym_sqrt(SymReal(vs[seg][j])).t * z
                     acc.oblige(eng, "anomalous.entry_is_mean_plus_sd_times_z_inside_and_z_outside", rv(df.iloc[i, j]) == want,
                                dict(info, anomalies=aa, row=i, col=j))
             acc.sample(dict(info, anomalies=aa))
 
     return Harness(run, base, sliced=True, timeout_ms=10000, name=f"anomalous {info}")
+
+
+def real_rng_cases(g, seed):
+    """Real scipy / NumPy draws (no stub): (name, output, expected) with expected = mean + sqrt(variance) * Z0 on each
+    requested segment and Z0 elsewhere, Z0 being the same generator's output for zero means, unit variances and the
+    same seed -- the property's own formulation.  Per-column parameters are neither equal nor monotone."""
+    out = []
+    mu = [np.array([0.0, 1.0]), np.array([2.0, -3.0]), np.array([-1.0, 0.5])]
+    va = [np.array([1.0, 9.0]), np.array([4.0, 0.25]), np.array([2.0, 2.0])]
+    a = g.generate_changing_data(7, [2, 5], mu, va, random_state=seed)
+    z = g.generate_changing_data(7, [2, 5], [np.zeros(2)] * 3, [np.ones(2)] * 3, random_state=seed).values
+    want = z.copy()
+    for (s_, e_), m_, v_ in zip(((0, 2), (2, 5), (5, 7)), mu, va):
+        want[s_:e_] = m_ + np.sqrt(v_) * z[s_:e_]
+    out.append(("generate_changing_data(7, [2, 5], per-column means and variances)", a.values, want))
+    an = [(4, 6), (1, 3)]
+    mu3 = [np.array([5.0, -2.0, 1.0]), np.array([-3.0, 4.0, 0.0])]
+    va3 = [np.array([0.25, 9.0, 1.0]), np.array([4.0, 1.0, 16.0])]
+    b = g.generate_anomalous_data(8, an, mu3, va3, random_state=seed)
+    z = g.generate_anomalous_data(8, an, [np.zeros(3)] * 2, [np.ones(3)] * 2, random_state=seed).values
+    want = z.copy()
+    for (s_, e_), m_, v_ in zip(an, mu3, va3):
+        want[s_:e_] = m_ + np.sqrt(v_) * z[s_:e_]
+    out.append(("generate_anomalous_data(8, [(4, 6), (1, 3)], per-column means and variances)", b.values, want))
+    c = g.generate_alternating_data(3, 2, p=4, mean=1.5, variance=4.0, affected_proportion=0.5, random_state=seed)
+    z = g.generate_alternating_data(3, 2, p=4, mean=0.0, variance=1.0, affected_proportion=0.5, random_state=seed).values
+    want = z.copy()
+    want[2:4, :2] = 1.5 + 2.0 * z[2:4, :2]
+    out.append(("generate_alternating_data(3, 2, p=4, mean=1.5, variance=4, affected_proportion=0.5)", c.values, want))
+    return out
 
 
 def make_misc(nmax, pmax):
@@ -285,6 +318,15 @@ def make_misc(nmax, pmax):
                 acc.concrete("real_rng.output_is_affine_image_of_standard_draw", bool(np.allclose(a.values, want)), dict(info, part="seed", seed=sd_))
                 if np.allclose(a.values, want):
                     acc.inc("translator_ok")
+                try:
+                    cases = real_rng_cases(g, sd_)
+                except Exception as ex:
+                    cases = [(f"real_rng_cases raised {type(ex).__name__}: {ex}"[:200], np.zeros(1), np.ones(1))]
+                for name, got_, want_ in cases:
+                    same = got_.shape == want_.shape and bool(np.allclose(got_, want_))
+                    acc.concrete("real_rng.per_column_output_is_affine_image_of_standard_draw", same, dict(info, part="seed_percol", seed=sd_, call=name))
+                    if same:
+                        acc.inc("translator_ok")
         acc.sample(dict(info, checked=["alternating", "outliers", "counts", "seed"]))
 
     return Harness(run, base, sliced=True, timeout_ms=10000, name="misc")
@@ -356,8 +398,8 @@ def replay(cx):
             n, p, k = info["n"], info["p"], info["k"]
             an = info.get("anomalies") or [(gi(f"s{i}"), gi(f"e{i}")) for i in range(k)]
             an = [tuple(a) for a in an]
-            means = [np.full(p, f(f"mu_{s}", s + 1)) for s in range(k)]
-            variances = [np.full(p, f(f"var_{s}", 1)) for s in range(k)]
+            means = [np.array([f(f"mu_{s}_{j}", s + 1 + j) for j in range(p)]) for s in range(k)]
+            variances = [np.array([f(f"var_{s}_{j}", 1 + j) for j in range(p)]) for s in range(k)]
             try:
                 df = g.generate_anomalous_data(n, list(an), means, variances, random_state=0)
                 z = g.generate_anomalous_data(n, [(0, 1)], [np.zeros(p)], [np.ones(p)], random_state=0).values
@@ -366,7 +408,7 @@ def replay(cx):
                 outcome = "ValueError"
             except Exception as ex:
                 outcome = f"{type(ex).__name__}: {ex}"[:120]
-            valid = all(0 <= a < b <= n for a, b in an) and all(an[i][1] <= an[i + 1][0] for i in range(k - 1))
+            valid = all(0 <= a < b <= n for a, b in an) and all(an[i][1] <= an[j][0] or an[j][1] <= an[i][0] for i in range(k) for j in range(i + 1, k))
             outside = any(a < 0 or b > n for a, b in an)
             empty = any(b <= a for a, b in an)
             if (outside or empty) and outcome != "ValueError":
@@ -409,6 +451,13 @@ def replay(cx):
                         bad.append(f"generate_alternating_data({nseg}, {L}, p={p}, affected_proportion={prop}) differs from the definition")
                 except Exception as ex:
                     bad.append(f"generate_alternating_data({nseg}, {L}, p={p}) raised {type(ex).__name__}: {ex}")
+            elif part == "seed_percol":
+                key = f"misc|seed_percol|{ob}"
+                for name, got_, want_ in real_rng_cases(g, info.get("seed", 0)):
+                    if got_.shape != want_.shape or not np.allclose(got_, want_):
+                        bad.append(f"{name}, random_state={info.get('seed', 0)}: output {np.round(got_, 4).tolist()} is not mean + sqrt(variance) * Z "
+                                   f"of the standard-normal output Z for the same seed ({np.round(want_, 4).tolist()})")
+                        break
             elif part == "seed":
                 sd_ = info.get("seed", 0)
                 a = g.generate_changing_data(6, [2, 4], [0.0, 2.0, -1.0], [1.0, 4.0, 0.25], random_state=sd_)
